@@ -67,6 +67,7 @@ type FnVerifier struct {
 	rec        map[string]bool // when non-nil, arr()/ghost() record the arrays they are asked for
 	opqDeps    map[string][]string
 	opqDone    map[string]bool
+	oblEnv     *TEnv // environment of the clause being turned into an obligation (for known-finding classes)
 }
 
 // frame is the execution of one function body (root or inlined).
@@ -503,7 +504,11 @@ func (v *FnVerifier) oblige(kind, name string, tags []string, reach, goal Term, 
 		if err != nil {
 			panic(specErr{"known-findings exclude: " + err.Error()})
 		}
-		goal = Or(v.entryEnv().bool(ex), goal)
+		env := v.entryEnv()
+		if v.oblEnv != nil {
+			env = v.oblEnv
+		}
+		goal = Or(env.bool(ex), goal)
 	}
 	o := &Obligation{Name: name, Kind: kind, Func: v.fc.Key, Tags: tags, Mark: v.ctx.Mark(), Reach: reach, Goal: goal, Pos: pos, Src: src, ctx: v.ctx}
 	v.obls = append(v.obls, o)
